@@ -15,6 +15,14 @@ def fuzz(pkg, run, t="45s"):
     return {"pkg": pkg, "run": run, "kind": "fuzz", "tiers": ("thorough",), "fuzztime": {"thorough": t}}
 
 CHECKS = {
+    "C06": {
+        "level": "exploration",
+        "assumptions": ["the in-process variant presents a chunked request exactly as net/http's server does (ContentLength -1, TransferEncoding [chunked]); the real-server variant checks that with real framing", "ground truth is a snapshot of the request taken right before the buffer"],
+        "jobs": [
+            rapid("props/c06", "^TestC06_InProcess$", 2500, 15000, shards_t=8),
+            rapid("props/c06", "^TestC06_RealServer$", 300, 2500, shards_t=6),
+        ],
+    },
     "C18": {
         "level": "exploration",
         "assumptions": ["frozen clock (steps whole ms + 1us)", "three-valued oracle: window phase, quantile convention, HDR precision and whether a completion while tripped restarts the check period are treated as unknown rather than guessed", "the metrics windows are the defaults (10 x 1 s counters, 6 x 10 s histogram)"],
@@ -105,6 +113,11 @@ CHECKS = {
 
 # Texts for MANIFEST.json (level text, trusted base, technique) per claimed property.
 MANIFEST_TEXT = {
+    "C06": {
+        "level": "Round-trip property over generated requests (method, target, header sets with repeated names, body sizes placed on both sides of the memory threshold up to multi-MiB, declared or chunked framing incl. the empty chunked body and generated chunk sizes through a raw socket), generated thresholds and generated retry scripts in which each failed attempt reads a prefix of the body and mutates the request it was handed; every attempt is compared with a snapshot of the client's request and with the body bytes from offset 0. Exploration.",
+        "note": "Trusts the snapshot taken before the buffer and Go's HTTP server parsing in the real-server variant.",
+        "technique": "property-based testing (rapid): round-trip/differential oracle against the pre-buffer request snapshot, generated fault scripts",
+    },
     "C18": {
         "level": "Generated condition expressions (grammar with and/or nesting, all six comparisons, the three metric functions, minimal parentheses) and generated histories of arrivals, completions with status/latency and clock advances over several trip/recovery cycles are checked against an independent three-valued evaluator over the oracle's own record of the responses completed since the last trip: at every definite evaluation point with a definite value the breaker trips iff the value is true; at definite non-evaluation points nothing may change; side-effect counters equal the observed transitions. A coverage-guided byte-level target decodes bytes into expression + history and runs the same oracle (thorough). Exploration.",
         "note": "Trusts the independent evaluator (Kleene logic over window/quantile hypotheses) and the gate/clock harness; unknown evaluations are counted, not asserted.",
